@@ -116,7 +116,7 @@ func checkC03(c *c03Case, rec *ev.Recorder) *failure {
 	m.CanLoad = func(uri string) bool { return !faults[uri] }
 	modelErr := m.ResolveEverything()
 	if c.Dangling == "" && len(u.Faults) == 0 && !u.LoaderNil && modelErr != nil {
-		return failf("HARNESS: generator produced a universe the model cannot resolve: %v", modelErr)
+		return failf("HARNESS: generator produced a universe the model cannot resolve: %v\n root: %s", modelErr, mustJSON(u))
 	}
 	// the set of URIs that some reference names (closure computed by the model)
 	named := m.NamedURIs()
@@ -330,6 +330,8 @@ func TestC03(t *testing.T) {
 		rec.ClassIf(u.LoaderNil, "config:nil-loader")
 		rec.ClassIf(len(u.Faults) > 0, "config:loader-faults")
 		rec.ClassIf(len(u.Alias) > 0, "config:canonical-id-alias")
+		rec.ClassIf(u.BaseURI == "http://p.test" || u.BaseURI == "http://p.test/" || u.BaseURI == "http://h.test/dir/", "config:base-uri-without-file-name")
+		rec.ClassIf(strings.Contains(u.Root.JSON(), `.json#"`) || strings.Contains(u.Root.JSON(), `#","`), "config:id-with-empty-fragment")
 		fl := checkC03(c, rec)
 		if isHarnessFailure(fl) {
 			rec.Inconclusive("generator-or-model-error: " + fl.Msg)
